@@ -12,14 +12,4 @@ def answer (toks : List String) : String :=
   | ["diagline_mv", n, r, m] => showNats (LineDist.diaglineMV (boolMat r) (bools m) n.toNat!)
   | _ => "bad-request"
 
-partial def loop (h : IO.FS.Stream) (out : IO.FS.Stream) : IO Unit := do
-  let line ← h.getLine
-  if line.isEmpty then return ()
-  let toks := (line.trimAscii.toString.splitOn " ").filter (· ≠ "")
-  out.putStrLn (answer toks)
-  loop h out
-
-def main : IO Unit := do
-  let out ← IO.getStdout
-  loop (← IO.getStdin) out
-  out.flush
+def main : IO Unit := runDriver answer
